@@ -662,8 +662,10 @@ Definition k_chmod (s : kstate) (p : str) (mode : N) : kstate * res :=
 
 (* ---- signals ------------------------------------------------------------------------------------- *)
 
-Definition nsig : N := 6.        (* 5 = SIGTSTP: the default action stops the process *)
+Definition nsig : N := 7.        (* 5 = SIGTSTP: the default action stops the process;
+                                    6 = SIGCHLD: the default action is to do nothing *)
 Definition sigtstp : N := 5.
+Definition sigchld : N := 6.
 
 Fixpoint mem_n (x : N) (l : list N) : bool :=
   match l with [] => false | y :: l' => N.eqb x y || mem_n x l' end.
@@ -695,7 +697,7 @@ Definition deliver (g : sigstate) (sig : N) : option sigstate :=
   match get_disp (g_disp g) sig with
   | DIgnore => Some g
   | DCatch => Some (mkSig (g_disp g) (g_mask g) (g_pend g) (insert_n sig (g_caught g)))
-  | DDefault => None
+  | DDefault => if N.eqb sig sigchld then Some g else None
   end.
 
 (* deliver the pending signals that are no longer blocked, lowest first *)
@@ -711,12 +713,14 @@ Fixpoint deliver_pending (g : sigstate) (cands : list N) : option sigstate :=
       else deliver_pending g cands'
   end.
 
-Definition all_sigs : list N := [0; 1; 2; 3; 4; 5]%N.
+Definition all_sigs : list N := [0; 1; 2; 3; 4; 5; 6]%N.
 
 Definition sigs_ok (l : list N) : bool := forallb (fun x => N.ltb x nsig) l.
 
 Definition k_sigaction (s : kstate) (sig : N) (d : disp) : kstate * res :=
   if negb (N.ltb sig nsig) then (s, ROut) else
+  (* (ignoring SIGCHLD changes what wait() does) *)
+  if N.eqb sig sigchld && match d with DIgnore => true | _ => false end then (s, ROut) else
   let g := p_sig (k_cur s) in
   (* POSIX: setting the action to "ignore" discards a pending instance *)
   let pend := match d with DIgnore => remove_n sig (g_pend g) | _ => g_pend g end in
@@ -755,29 +759,23 @@ Definition k_sigmask (s : kstate) (how : N) (sigs : list N) : kstate * res :=
     else norm_set sigs in
   match deliver_pending (mkSig (g_disp g) new (g_pend g) (g_caught g)) all_sigs with
   | Some g' => (set_sig s g', RSigs (g_mask g))
-  | None => (s, ROut)
-  end.
-
-(* ---- fork / exit (subshell schedule) ------------------------------------------------------------ *)
-
-Definition k_fork (s : kstate) : kstate * res :=
-  (* the child is a copy of the parent and shares its open file descriptions;
-     it inherits dispositions, the mask, the limit and the process group, and
-     has no pending signals.
-     (Caught-but-uncollected signals are an implementation artefact on both
-     sides: the sequences collect them before forking.) *)
-  let p := k_cur s in
-  let g := p_sig p in
-  (mkK (k_ino s) (k_ofd s)
-       (mkProc (p_fds p) (p_cwd p) (p_umask p) (mkSig (g_disp g) (g_mask g) [] []) (p_limit p)
-               (N.of_nat (length (k_susp s)) + 2, snd (p_id p))%N)
-       (p :: k_susp s) None (k_unpriv s),
-   match g_caught g with [] => RUnit | _ => ROut end).
-
-Definition k_exit (s : kstate) : kstate * res :=
-  match k_susp s with
-  | [] => (s, ROut)
-  | parent :: rest => (mkK (k_ino s) (k_ofd s) parent rest None (k_unpriv s), RChild CExited)
+  | None =>
+      (* a pending signal whose action is the default one becomes deliverable.
+         Exactly one such signal and it terminates: a child dies inside this
+         call (its parent will be told); everything else is outside the domain
+         (the first process must survive; with several signals the order of
+         the two systems' signal numbers would decide; a stop is not generated) *)
+      match filter (fun sig => mem_n sig (g_pend g) && negb (mem_n sig new) &&
+                               match get_disp (g_disp g) sig with DDefault => negb (N.eqb sig sigchld) | _ => false end)
+                   all_sigs with
+      | [sig] =>
+          if N.eqb sig sigtstp then (s, ROut) else
+          match k_susp s with
+          | [] => (s, ROut)
+          | _ => (mkK (k_ino s) (k_ofd s) (k_cur s) (k_susp s) (Some (sig, O)) (k_unpriv s), RSkip)
+          end
+      | _ => (s, ROut)
+      end
   end.
 
 (* ---- process groups, kill ---------------------------------------------------------------------------- *)
@@ -800,11 +798,41 @@ Definition generate (g : sigstate) (sig : N) : dres :=
   | DDefault =>
       if mem_n sig (g_mask g)
       then DOk (mkSig (g_disp g) (g_mask g) (insert_n sig (g_pend g)) (g_caught g))
+      else if N.eqb sig sigchld then DOk g
       else if N.eqb sig sigtstp then DStop else DFatal
   end.
 
 Definition with_sig (p : proc) (g : sigstate) : proc :=
   mkProc (p_fds p) (p_cwd p) (p_umask p) g (p_limit p) (p_id p).
+
+(* ---- fork / exit (subshell schedule) ------------------------------------------------------------ *)
+
+Definition k_fork (s : kstate) : kstate * res :=
+  (* the child is a copy of the parent and shares its open file descriptions;
+     it inherits dispositions, the mask, the limit and the process group, and
+     has no pending signals.
+     (Caught-but-uncollected signals are an implementation artefact on both
+     sides: the sequences collect them before forking.) *)
+  let p := k_cur s in
+  let g := p_sig p in
+  (mkK (k_ino s) (k_ofd s)
+       (mkProc (p_fds p) (p_cwd p) (p_umask p) (mkSig (g_disp g) (g_mask g) [] []) (p_limit p)
+               (N.of_nat (length (k_susp s)) + 2, snd (p_id p))%N)
+       (p :: k_susp s) None (k_unpriv s),
+   match g_caught g with [] => RUnit | _ => ROut end).
+
+(* the parent of a child that terminates gets SIGCHLD *)
+Definition notify (parent : proc) : proc :=
+  match generate (p_sig parent) sigchld with
+  | DOk g => with_sig parent g
+  | _ => parent
+  end.
+
+Definition k_exit (s : kstate) : kstate * res :=
+  match k_susp s with
+  | [] => (s, ROut)
+  | parent :: rest => (mkK (k_ino s) (k_ofd s) (notify parent) rest None (k_unpriv s), RChild CExited)
+  end.
 
 (* the waiting ancestors in group [pg] get the signal; it must not kill or stop
    any of them (they are the ones that collect the results) *)
@@ -921,7 +949,7 @@ Definition step (s : kstate) (o : op) : kstate * res :=
           | O => match k_susp s with
                  | [] => (s, ROut)
                  | parent :: rest =>
-                     (mkK (k_ino s) (k_ofd s) parent rest None (k_unpriv s), RChild (CSignaled sig))
+                     (mkK (k_ino s) (k_ofd s) (notify parent) rest None (k_unpriv s), RChild (CSignaled sig))
                  end
           | S d' => (mkK (k_ino s) (k_ofd s) (k_cur s) (k_susp s) (Some (sig, d')) (k_unpriv s), RSkip)
           end
